@@ -366,9 +366,101 @@ fn check_process_pair(st: &mut St, n: usize, prev: &[u8], next: &[u8]) {
     }
 }
 
+/// Messages (Main tree) whose second unit is *undefined by the path rule* although the same text
+/// would be a defined header from the root, and which carries a newline inside its string or
+/// block (so that `process` sees a newline before the message is complete).  By the path rule
+/// the unit's handler must never run: expected are the calls of the units before it, exactly
+/// one -113 and then all or none of the (absolute) units behind it.
+fn context_payload_messages() -> Vec<Msg> {
+    use mc::spec::msg::{Lit, LitKind};
+    const S1: Lit = Lit { text: b"'p\nq'", kind: LitKind::Str(b"p\nq") };
+    const S2: Lit = Lit { text: b"\"\n\n\"", kind: LitKind::Str(b"\n\n") };
+    const K1: Lit = Lit { text: b"#13a\nb", kind: LitKind::Blk(b"a\nb") };
+    const K2: Lit = Lit { text: b"#12\n\n", kind: LitKind::Blk(b"\n\n") };
+    const I5: Lit = Lit { text: b"5", kind: LitKind::Int(5) };
+    const SZ: Lit = Lit { text: b"'z'", kind: LitKind::Str(b"z") };
+    let mut out = vec![];
+    for first in ["A:B", "A:A:A", "A:E"] {
+        for (hdr, args) in [("A:S", vec![S1]), ("A:S", vec![S2]), ("A:K", vec![K1]), ("A:N", vec![I5, S1]), ("A:M", vec![K2, SZ]), ("A:L", vec![S2, K1])] {
+            for tail in [vec![], vec![Unit::hdr(":B?")], vec![Unit::hdr(":A:E"), Unit::hdr(":E")]] {
+                let mut units = vec![Unit::hdr(first), Unit::hdr(hdr).with(&args)];
+                units.extend(tail);
+                out.push(Msg::of(units));
+            }
+        }
+    }
+    out
+}
+
+fn check_process_context(st: &mut St, iface: &Iface, n: usize, m: &Msg) {
+    let e = msg::msg_effect(iface, m);
+    let Some(at) = e.fault_at else { panic!("context message without a fault: {:?}", show(&m.bytes())) };
+    assert!(at == 1 && !e.post_depends_on_context);
+    let mut none = Flat::default();
+    none.push(&e.pre);
+    let mut all = Flat::default();
+    all.push(&e.pre);
+    all.push(&e.post);
+    let s = m.bytes();
+    st.buffers += 1;
+    let nl = s.iter().position(|&b| b == b'\n').unwrap() + 1;
+    let mut chunkings = vec![vec![s.len()], mc::env::regular(s.len(), 1), vec![nl, s.len() - nl], vec![nl - 1, s.len() + 1 - nl], mc::env::regular(s.len(), 3), mc::env::regular(s.len(), 7)];
+    chunkings.dedup();
+    for sizes in chunkings {
+        let (o, obs) = mc::mainx::proc_obs(n, &s, &sizes, Pattern::NONE);
+        st.execs += 1;
+        if o.end != End::Returned {
+            continue;
+        }
+        st.context_undefined += 1;
+        st.distinct.add(obs.calls.iter().flatten().fold(0x9e3779b97f4a7c15u64, |h, &b| (h ^ b as u64).wrapping_mul(0x100000001b3)));
+        let fits = |f: &Flat| obs.calls == f.calls && obs.out == f.out && obs.errs.len() == f.errs.len() && obs.errs.iter().zip(f.errs.iter()).all(|(o, x)| x.admits(o));
+        if !(fits(&none) || fits(&all)) {
+            let feat = vec![
+                ("kind", "a-unit-undefined-by-the-path-rule-with-a-newline-in-its-data".to_string()),
+                ("handlers_differ", (obs.calls != none.calls && obs.calls != all.calls).to_string()),
+            ];
+            st.groups.add("process-path-rule", &feat, (s.len() * 1000 + sizes.len(), &s), || {
+                (
+                    json!({"mode": "process-context", "n": n, "message": hex(&s), "sizes": sizes}),
+                    format!(
+                        "process::<{n}>(\"{}\") read sizes {:?}: observed {} ; by the path rule the second unit is undefined: calls {:?}, one -113, then all or none of the units behind it (calls {:?})",
+                        show(&s),
+                        sizes,
+                        obs.show(),
+                        none.calls.iter().map(|c| show(c)).collect::<Vec<_>>(),
+                        all.calls.iter().map(|c| show(c)).collect::<Vec<_>>()
+                    ),
+                )
+            });
+        }
+    }
+}
+
 fn replay(path: &str) -> ! {
     let j: J = serde_json::from_str(&std::fs::read_to_string(path).unwrap()).unwrap();
     let w = &j["witness"];
+    if w["mode"].as_str() == Some("process-context") {
+        let n = w["n"].as_u64().unwrap() as usize;
+        let text = unhex(w["message"].as_str().unwrap());
+        let iface = Iface::new(MAIN_SPEC);
+        let m = context_payload_messages().into_iter().find(|m| m.bytes() == text).expect("message of the context pool");
+        let mut bad = [false; 2];
+        for r in 0..2 {
+            let mut st = St::default();
+            check_process_context(&mut st, &iface, n, &m);
+            for g in st.groups.map.values() {
+                println!("round {r}: {}", g.1.desc);
+            }
+            bad[r] = st.groups.total() > 0;
+        }
+        if bad[0] != bad[1] {
+            println!("MACHINERY-ERROR replay is not deterministic");
+            std::process::exit(2);
+        }
+        println!("{}", if bad[0] { "REPRODUCED" } else { "NOT-REPRODUCED" });
+        std::process::exit(if bad[0] { 1 } else { 0 });
+    }
     if w["mode"].as_str() == Some("process") {
         let n = w["n"].as_u64().unwrap() as usize;
         let prev = unhex(w["prev"].as_str().unwrap());
@@ -563,6 +655,25 @@ fn main() {
         tot.execs += s.execs;
         tot.distinct.merge(s.distinct);
     }
+    // (5) through process: a unit the path rule leaves undefined, with a newline in its data
+    let ctx_msgs = context_payload_messages();
+    let main_iface = Iface::new(MAIN_SPEC);
+    let ctx_items: Vec<(usize, usize)> = ns.iter().flat_map(|&n| (0..ctx_msgs.len()).map(move |i| (n, i))).collect();
+    let (cm, ci, mi) = (&ctx_msgs, &ctx_items, &main_iface);
+    let res = par::run_simple(ctx_items.len(), args.threads, args.seed, St::default, |st, p| {
+        let (n, i) = ci[p];
+        check_process_context(st, mi, n, &cm[i]);
+    });
+    let before_ctx = (tot.buffers, tot.execs);
+    for s in res {
+        out.groups.merge(s.groups);
+        tot.buffers += s.buffers;
+        tot.execs += s.execs;
+        tot.distinct.merge(s.distinct);
+    }
+    let context_phase = json!({"messages": ctx_msgs.len(), "N": ns, "chunkings": "one read, one byte per read, cut behind and in front of the first newline, 3 and 7 bytes per read",
+        "streams": tot.buffers - before_ctx.0, "executions": tot.execs - before_ctx.1,
+        "oracle": "calls of the units before the undefined one, exactly one -113, then all or none of the absolute units behind it; the undefined unit's text would be a defined header from the root"});
     let process_phase = json!({"previous_messages": PREV.iter().map(|m| show(m)).collect::<Vec<_>>(),
         "next_messages": NEXT.iter().map(|m| show(m)).collect::<Vec<_>>(), "N": ns,
         "chunkings": "one read, one byte per read, one message per read, 3 and 7 bytes per read",
@@ -583,7 +694,7 @@ fn main() {
     );
     out.cov(
         "bounds",
-        json!({"trees": per_tree, "pending_deviation_bound": 2, "pending_runs": tot.pending_runs, "through_process": process_phase}),
+        json!({"trees": per_tree, "pending_deviation_bound": 2, "pending_runs": tot.pending_runs, "through_process": process_phase, "through_process_undefined_by_context": context_phase}),
     );
     out.cov(
         "non_vacuity",
